@@ -961,6 +961,18 @@ def _ag_scalar(cx, rng, tn, before, ex, edges, n, Dmax, base, tol, dtype):
                 return f"after a compression the pair is joined by a bond of size {worst[0]} > cap {cap}"
             if worst[2] == 0:
                 return "the per-step callback was never called"
+            # early compression: right after every step the new intermediate is within the cap towards all its neighbours
+            big = [0]
+
+            def step2(tnx, tid):
+                t = tnx.tensor_map[tid]
+                for t2 in tnx.tensors:
+                    if t2 is not t:
+                        big[0] = max(big[0], pair_bond(tnx, t, t2))
+
+            tn.contract_compressed(opt, max_bond=cap, cutoff=0.0, compress_mode=cm, compress_late=False, callback=step2)
+            if big[0] > max(cap, Dmax):
+                return f"compress_late=False: after a step the new intermediate has a bond of size {big[0]} > cap {cap} (original bonds {Dmax})"
 
         cx.check("contract_compressed with a small cap: every pair is within the cap right after its compression (callback)", p2, t_cap)
     # simple-update gauges supplied
@@ -1012,6 +1024,10 @@ def _ag_scalar(cx, rng, tn, before, ex, edges, n, Dmax, base, tol, dtype):
                 if worst[0] > cap:
                     return f"after a compression the pair is joined by a bond of size {worst[0]} > cap {cap}"
                 del r
+                kw = dict(max_bond=cap, cutoff=0.0, min_distance=md, compress_late=False)
+                r = tn.contract_around(tags[:1], **kw) if which == "around" else getattr(tn, fn)(**kw)
+                if hasattr(r, "tensors") and max_pair_bond(r) > max(cap, Dmax):
+                    return f"compress_late=False: the returned network has a bond of size {max_pair_bond(r)} > cap {cap} (original bonds {Dmax})"
 
             cx.check("contract_around* with a small cap: every pair is within the cap right after its compression (callback)",
                      dict(base, which=which, cap=cap, min_distance=md), t_arc)
